@@ -3,6 +3,7 @@ import SlicecVerif.Drv.C11
 import SlicecVerif.Drv.C12
 import SlicecVerif.Drv.C02
 import SlicecVerif.Drv.C17
+import SlicecVerif.Drv.C14
 import SlicecVerif.Drv.C19
 
 open Slicec Slicec.Drv
@@ -22,6 +23,7 @@ def main (args : List String) : IO UInt32 := do
     | "C02" => genC02 t s o
     | "C09" => genC09 t s o
     | "C17" => genC17 t s o
+    | "C14" => genC14 t s o
     | "C19" => genC19 t s o
     | _ => IO.eprintln s!"unknown property {prop}"; return 2
     o.flush
